@@ -18,6 +18,7 @@ package cert
 //@   ensures [genesis-view] result == nil && isGenesisHash(qc.hash) ==> qc.view == hotstuff.genesisBlock.view
 //@   ensures [qcok] result == nil ==> qcok(c, qc)
 //@   ghost ensures result == nil ==> qcAccepted(c, qc)
+//@   ghost ensures result != nil ==> qcRejected(c, qc)
 //@   ensures [inv] blockchain.binv(c.blockchain) && blockchain.bmaps(c.blockchain)
 //@   ensures [stores] blockchain.entrieskept()
 //@   modifies c.blockchain.blocks[*], c.blockchain.blockAtHeight[*], c.blockchain.pendingFetch[*], c.blockchain.eventLoop.handlers[*], alloc
@@ -48,6 +49,9 @@ package cert
 //@ func (*Authority).findHighestValidQC property C02,C10,C20
 //@   requires awf(c) && hotstuff.genesisBlock != nil
 //@   ensures [valid] err == nil ==> qcok(c, highQC)
+//@   ensures [highest] err == nil ==> (forall i int :: {old(qcs[i])} 0 <= i && i < len(qcs) && old(qcs[i]).view > highQC.view ==> qcRejected(c, old(qcs[i])))
+//@   ensures [one-of-them] err == nil ==> (exists i int :: {old(qcs[i])} 0 <= i && i < len(qcs) && old(qcs[i]) == highQC)
+//@   loop 0 invariant [earlier-rejected] forall j int :: {qcs[j]} 0 <= j && j <= rangeindex ==> qcRejected(c, qcs[j])
 //@   ensures [inv] blockchain.binv(c.blockchain) && blockchain.bmaps(c.blockchain)
 //@   ensures [stores] blockchain.entrieskept()
 //@   loop 0 invariant [inv] blockchain.binv(c.blockchain) && blockchain.bmaps(c.blockchain)
@@ -62,13 +66,18 @@ package cert
 //@   ensures [quorum] err == nil ==> aggQC.sig != nil && hotstuff.setlen(hotstuff.parts(aggQC.sig)) >= quorum(c)
 //@   ensures [content] err == nil ==> (forall id hotstuff.ID :: hotstuff.setmem(hotstuff.parts(aggQC.sig), id) ==> has(aggQC.qcs, id) && crypto.sigvalid(c.Base, aggQC.sig, id, hotstuff.tmcontent(id, aggQC.view, true, aggQC.qcs[id])))
 //@   ensures [highqc-valid] err == nil ==> qcok(c, highQC)
+//@   ghost at call ToBytes :: emit att(op0.ID)
+//@   ensures [highqc-highest-attested] err == nil ==> (forall id hotstuff.ID :: {has(aggQC.qcs, id)} has(aggQC.qcs, id) && aggQC.qcs[id].view > highQC.view ==> qcRejected(c, aggQC.qcs[id]))
+//@   loop 0 invariant [list] len(qcs) == len(aggQC.qcs) + (tracelen(att) - old(tracelen(att))) && tracelen(att) >= old(tracelen(att))
+//@   loop 0 invariant [entries] forall k int :: {traceat(att, 0, k)} old(tracelen(att)) <= k && k < tracelen(att) ==> has(aggQC.qcs, traceat(att, 0, k)) && qcs[len(aggQC.qcs) + k - old(tracelen(att))] == aggQC.qcs[traceat(att, 0, k)]
+//@   loop 0 invariant [visited-in-trace] forall id hotstuff.ID :: {visited(0, id)} visited(0, id) ==> (exists k int :: {traceat(att, 0, k)} old(tracelen(att)) <= k && k < tracelen(att) && traceat(att, 0, k) == id)
 //@   ensures [aggok] err == nil ==> aggok(c, aggQC)
 //@   ghost ensures err == nil ==> aggAccepted(c, aggQC)
 //@   ensures [inv] blockchain.binv(c.blockchain) && blockchain.bmaps(c.blockchain)
 //@   ensures [stores] blockchain.entrieskept()
 //@   loop 0 invariant [msgs] forall id hotstuff.ID :: has(messages, id) ==> has(aggQC.qcs, id) && content(messages[id]) == hotstuff.tmcontent(id, aggQC.view, true, aggQC.qcs[id])
 //@   loop 0 invariant [fresh] fresh(qcs) && messages != nil && fresh(messages)
-//@   modifies c.blockchain.blocks[*], c.blockchain.blockAtHeight[*], c.blockchain.pendingFetch[*], c.blockchain.eventLoop.handlers[*], alloc
+//@   modifies c.blockchain.blocks[*], c.blockchain.blockAtHeight[*], c.blockchain.pendingFetch[*], c.blockchain.eventLoop.handlers[*], trace(att), alloc
 
 // The certificate a proposal is judged by: its block's QC must be a valid QC (and, with
 // aggregate QCs, the aggregate certificate must verify and its high QC is the block's QC).
@@ -84,6 +93,8 @@ package cert
 // asserted positively by the ghost postconditions of the three functions; what acceptance
 // implies is stated by their checked postconditions (qcok / tcok / aggok at that time).
 //@ pure func qcAccepted(c *Authority, qc hotstuff.QuorumCert) bool
+// (qcRejected likewise names "VerifyQuorumCert(qc) returned an error at some point")
+//@ pure func qcRejected(c *Authority, qc hotstuff.QuorumCert) bool
 //@ pure func tcAccepted(c *Authority, tc hotstuff.TimeoutCert) bool
 //@ pure func aggAccepted(c *Authority, agg hotstuff.AggregateQC) bool
 
